@@ -243,6 +243,16 @@ def run(
         return anyio.run(wrapper, backend_options={"use_uvloop": True})
     elif config == "real":
         return anyio.run(main, *args)
+    elif config == "real_eager":
+
+        def eager_factory() -> asyncio.AbstractEventLoop:
+            loop = asyncio.new_event_loop()
+            loop.set_task_factory(asyncio.eager_task_factory)
+            return loop
+
+        return anyio.run(main, *args, backend_options={"loop_factory": eager_factory})
+    elif config == "real_uvloop":
+        return anyio.run(main, *args, backend_options={"use_uvloop": True})
     else:
         raise ValueError(config)
 
